@@ -442,6 +442,7 @@ func (ex *Exec) applyContract(ct *Contract, key string, sig *types.Signature, na
 	for _, d := range ct.Domain {
 		dom = append(dom, ex.evalBool(env, d))
 	}
+	baseLen := len(c.script)
 	for _, en := range ct.Ensures {
 		c.assume(Implies(And(append([]Term{ex.rch}, dom...)...), ex.evalBool(post, en)))
 	}
@@ -450,6 +451,7 @@ func (ex *Exec) applyContract(ct *Contract, key string, sig *types.Signature, na
 		cv := c.obligeNamed(fmt.Sprintf("cover.call.%s@%s", shortKey(key), ex.callSiteID("cover:"+key)), "cover", pos,
 			"the call returns under the callee's contract (its postconditions are consistent here)", ex.rch, tTrue)
 		cv.Cover = true
+		cv.BaseLen = baseLen
 	}
 	return rv
 }
@@ -664,6 +666,14 @@ func (ex *Exec) havocForCall(callee *ssa.Function, args []Val, p token.Pos) {
 		return
 	}
 	if isPureExternal(callee) {
+		if hasCallbackArg(callee, args) {
+			// a library function that is handed a function value runs it (filepath.WalkDir, strings.Map, ...):
+			// the callback may write every variable it captured and anything reachable from them, so the
+			// call is not pure for the caller even though the library function itself touches nothing
+			c.note("%s: call of %s receives a function value: the callback may run, heap havoc'd", ex.fn.Name(), callee.String())
+			c.heapHavocAll(ex.st)
+			ex.bumpAlloc()
+		}
 		ex.flushPendingHavoc()
 		return
 	}
@@ -724,6 +734,29 @@ var impureNames = map[string]bool{
 	"net.Listen": true, "net.Dial": true, "net.ListenPacket": true, "net.DialTimeout": true, "net.ListenUDP": true,
 	"(*net/url.URL).UnmarshalBinary": true, "(*time.Time).UnmarshalJSON": true, "(*time.Time).UnmarshalText": true,
 	"(*regexp.Regexp).Longest": true, "bytes.NewBuffer": false,
+}
+
+// hasCallbackArg: some argument of the call is a function value (closure, method value or function variable).
+func hasCallbackArg(callee *ssa.Function, args []Val) bool {
+	for _, a := range args {
+		if a.Fn != nil {
+			return true
+		}
+		if a.Ty != nil {
+			if _, ok := a.Ty.Underlying().(*types.Signature); ok {
+				return true
+			}
+		}
+	}
+	if callee != nil && callee.Signature != nil {
+		ps := callee.Signature.Params()
+		for i := 0; i < ps.Len(); i++ {
+			if _, ok := ps.At(i).Type().Underlying().(*types.Signature); ok {
+				return true
+			}
+		}
+	}
+	return false
 }
 
 // isPureExternal: standard-library functions that do not modify memory reachable from the module.
